@@ -201,7 +201,8 @@ Proof.
     destruct (sl s (Z.to_nat bg) (length s)); reflexivity. }
   assert (HR : forall v, K (Datatypes.inr v) = Ret v) by reflexivity.
   clearbody C B P K.
-  change 0 with (Z.of_nat 0) at 2. generalize 0%nat as i. generalize 0 as ct. generalize (-1) as bg.
+  change (while fuel C B P (-1, 0, 0)) with (while fuel C B P (-1, 0, Z.of_nat 0)).
+  generalize 0%nat as i. generalize 0 as ct. generalize (-1) as bg.
   induction fuel as [|f IH]; intros bg ct i; [reflexivity|].
   rewrite while_step, HC. cbn [bind sub_go]. rewrite zlen_eq.
   destruct (Nat.ltb_spec i (length s)) as [Hi|Hi].
@@ -220,3 +221,46 @@ Qed.
 Corollary code_Sub s start length_ : sub_no_wrap start length_ ->
   g_Sub (S (length s)) s start length_ = to_M (sub s start length_).
 Proof. intros H. rewrite code_Sub_fuel by exact H. reflexivity. Qed.
+
+(* ================================================================ SubByDisplay *)
+Definition sub_by_display_fuel (fuel : nat) (s : list Z) (limit : Z) : Strs.res :=
+  if Strs.zlen s <=? limit then Strs.Ret s else sbd_go s limit fuel 0 0.
+Lemma sub_by_display_fuel_model s limit : sub_by_display_fuel (S (length s)) s limit = sub_by_display s limit.
+Proof. reflexivity. Qed.
+
+Theorem code_SubByDisplay_fuel fuel s limit :
+  g_SubByDisplay fuel s limit = to_M (sub_by_display_fuel fuel s limit).
+Proof.
+  unfold g_SubByDisplay, sub_by_display_fuel. change (Strs.zlen s) with (GoSem.zlen s).
+  destruct (GoSem.zlen s <=? limit); [reflexivity|].
+  cbv zeta. open_loop.
+  assert (HC : forall i d, C (i, d) = Ret (i <? GoSem.zlen s)) by reflexivity.
+  assert (HB : forall i d, (i < length s)%nat ->
+    B (Z.of_nat i, d) =
+    let d' := d + disp (fst (decode (skipn i s))) in
+    if limit <? d' then to_ret (sl s 0 i) else Ret (Next (Z.of_nat i, d'))).
+  { intros i d Hi. unfold B. rewrite str_rune_at_nat. cbn [fst]. cbv zeta. unfold disp.
+    destruct (fst (decode (skipn i s)) <? 128).
+    - destruct (limit <? d + 1); [|reflexivity]. change 0 with (Z.of_nat 0). rewrite m_slice_nat.
+      destruct (sl s 0 i); reflexivity.
+    - destruct (limit <? d + 2); [|reflexivity]. change 0 with (Z.of_nat 0). rewrite m_slice_nat.
+      destruct (sl s 0 i); reflexivity. }
+  assert (HP : forall i d, P (Z.of_nat i, d) = Ret (Z.of_nat (i + snd (decode (skipn i s))), d)).
+  { intros i d. unfold P. rewrite str_rune_at_nat. cbn [snd]. do 2 f_equal. lia. }
+  assert (HK : forall i d, K (Datatypes.inl (i, d)) = Ret s) by reflexivity.
+  assert (HR : forall v, K (Datatypes.inr v) = Ret v) by reflexivity.
+  clearbody C B P K.
+  change (while fuel C B P (0, 0)) with (while fuel C B P (Z.of_nat 0, 0)). generalize 0%nat as i. generalize 0 as d.
+  induction fuel as [|f IH]; intros d i; [reflexivity|].
+  rewrite while_step, HC. cbn [bind sbd_go]. rewrite zlen_eq.
+  destruct (Nat.ltb_spec i (length s)) as [Hi|Hi].
+  - ltb_true. rewrite HB by exact Hi. cbv zeta.
+    destruct (decode (skipn i s)) as [v w] eqn:Ed. cbn [fst].
+    destruct (limit <? d + disp v).
+    + destruct (sl s 0 i); cbn [to_ret bind to_M]; try reflexivity. apply HR.
+    + cbn [bind]. rewrite HP, Ed. cbn [bind snd]. apply IH.
+  - ltb_false. cbn [bind]. apply HK.
+Qed.
+
+Corollary code_SubByDisplay s limit : g_SubByDisplay (S (length s)) s limit = to_M (sub_by_display s limit).
+Proof. rewrite code_SubByDisplay_fuel. reflexivity. Qed.
